@@ -27,6 +27,11 @@ Judge(k) ==
         \/ (ext[D(k)] /\ vbal'[D(k)] = vbal[D(k)] /\ tok'[D(k)] = tok[D(k)] + N(k) /\ esc'[D(k)] = esc[D(k)] /\ sup'[D(k)] = sup[D(k)] /\ mx' = mx - N(k)))
   (* C11 on the IBC call path: no conversion while governance has the module or the pair switched off (or no pair exists) *)
   /\ Report(k, "C11.HookHonoursSwitches", (ln(k).ev = "Recv" /\ ~(gOn /\ gPair[D(k)])) => (tok'[D(k)] = tok[D(k)] /\ esc'[D(k)] = esc[D(k)]))
+  (* ... and the conversion it runs for the receiver is exact and backed, or changes nothing (C11's either/or on this call path) *)
+  /\ Report(k, "C11.HookConvertsExactlyOrNothing", ln(k).ev = "Recv" =>
+        \/ (tok'[D(k)] = tok[D(k)] /\ esc'[D(k)] = esc[D(k)] /\ (vbal'[D(k)] = vbal[D(k)] \/ vbal'[D(k)] = vbal[D(k)] + N(k)))
+        \/ (vbal'[D(k)] = vbal[D(k)] /\ tok'[D(k)] = tok[D(k)] + N(k) /\ esc'[D(k)] = esc[D(k)] + N(k))
+        \/ (ext[D(k)] /\ vbal'[D(k)] = vbal[D(k)] /\ tok'[D(k)] = tok[D(k)] + N(k) /\ esc'[D(k)] = esc[D(k)] /\ sup'[D(k)] = sup[D(k)] /\ mx' = mx - N(k)))
   /\ Report(k, "C16.FailedTransferNoEffect", (ln(k).ev = "Recv" /\ ~ln(k).wrapped_success) => UNCHANGED <<vbal, esc, sup, tok>>)
   /\ Report(k, "C16.OtherDenomsUntouched", ln(k).ev = "Recv" => \A d \in Vouchers \ {D(k)} : vbal'[d] = vbal[d] /\ esc'[d] = esc[d] /\ (tok'[d] = tok[d] \/ (ext'[d] /\ ext'[D(k)])))   \* vouchers of one external pair share its token
   (* the outbound direction through the middleware: the transfer application's outcome is the outcome *)
